@@ -33,21 +33,36 @@ class W:
     def __init__(self, ty):
         self.ty = ty
 
-    def fmt(self, v):
+    def lit(self, v):
+        """literal of a real value (generator)"""
         return f64hex(v) if self.ty == "f64" else str(int(v))
 
+    def fmt(self, u):
+        """literal of a value in oracle units (see `val`)"""
+        return f64hex(float(Fraction(u) / 4)) if self.ty == "f64" else str(int(u))
+
     def parse(self, s):
-        """-> Fraction, or None when the code must reject it (negative / NaN / inf)"""
+        """-> exact value, or None when the code must reject it (negative / NaN / inf).
+        Values are Python ints (uint64/int64) or quarter-unit ints (double: weights are multiples of 0.5, so every
+        quantity the sketch reports is an integer number of quarters; anything else becomes an exact Fraction)."""
         if self.ty == "f64":
             x = hexf64(s)
             if x != x or x in (float("inf"), float("-inf")) or x < 0:
                 return None
-            return Fraction(x)
+            return self.val(s)
         v = int(s)
-        return None if v < 0 else Fraction(v)
+        return None if v < 0 else v
 
     def val(self, s):
-        return Fraction(hexf64(s)) if self.ty == "f64" else Fraction(int(s))
+        if self.ty == "f64":
+            x = hexf64(s) * 4.0
+            if x != x or x in (float("inf"), float("-inf")):
+                return Fraction(0)
+            return int(x) if x == int(x) and abs(x) < 2.0**62 else Fraction(hexf64(s)) * 4
+        return int(s)
+
+    def show(self, v):
+        return str(Fraction(v) / 4) if self.ty == "f64" else str(v)
 
 
 def cap_of(lg):
@@ -123,7 +138,7 @@ def gen_history(rng, tier, ity, big=False):
              "ascending": "small", "mixed": rng.choice(["small", "heavy", "big", "zeroish"])}[order]
     live = list(range(nsk))
     nxt = nsk
-    qevery = rng.choice([1, 3, 7, 1000]) if not big else 1000
+    qevery = (rng.choice([1, 3, 7, 1000]) if nops < 300 else rng.choice([10, 40, 1000])) if not big else 1000
     zipf = [1.0 / (i + 1) ** 1.2 for i in range(len(items))]
     cursor = 0
     heavy = rng.sample(items, min(3, len(items)))
@@ -160,11 +175,11 @@ def gen_history(rng, tier, ity, big=False):
                 it = items[cursor % len(items)]; cursor += 1
             wt = rw(wkind)
             if order == "ascending":
-                wt = w.fmt(1 + j // 3)
+                wt = w.lit(1 + j // 3)
             if order in ("heavy-first", "heavy-late") and it in heavy:
-                wt = w.fmt(rng.randrange(5, 50))
+                wt = w.lit(rng.randrange(5, 50))
             if rng.random() < 0.04:
-                wt = w.fmt(0)
+                wt = w.lit(0)
             if rng.random() < 0.02 and wty != "u64":
                 wt = rng.choice(["-1", "-5"]) if wty == "i64" else rng.choice(["bff0000000000000", "7ff8000000000000", "7ff0000000000000"])
             h.append("%s %d %s %s" % ("updmv" if rng.random() < 0.25 else "upd", s, it, wt))
@@ -224,7 +239,7 @@ def annotate(hist, impl_out, stop_at_opaque_merge=False):
         w = l.split()
         o = impl_out[i].split()
         if w[0] == "new" and o and o[0] == "S":
-            sid = int(w[1]); wt[sid] = W(w[2]); off[sid] = Fraction(0); nact[sid] = 0; tot[sid] = Fraction(0)
+            sid = int(w[1]); wt[sid] = W(w[2]); off[sid] = 0; nact[sid] = 0; tot[sid] = 0
         elif canon_op(w) in ("upd", "merge") and o and o[0] == "S" and int(w[1]) in wt:
             sid = int(w[1]); ww = wt[sid]
             new = ww.val(o[2])
@@ -273,11 +288,17 @@ def oracle(hist, impl_out):
 
     def chk_eps(i, s, total, offset, eps):
         if s["eps_ok"] and s["lgmax"] <= 10 and offset > eps * total:
-            bad.append(("max-error-exceeds-epsilon", "offset=%s total=%s eps=%s" % (offset, total, float(eps)), i))
+            sh = s["w"].show
+            bad.append(("max-error-exceeds-epsilon", "offset=%s total=%s eps=%s" % (sh(offset), sh(total), float(eps)), i))
 
     def parseS(s, o):
         ww = s["w"]
         return ww.val(o[1]), ww.val(o[2]), int(o[3]), o[4] == "1", Fraction(hexf64(o[5]))
+
+    cur = [W("u64")]
+
+    def sh(v):
+        return cur[0].show(v)
 
     for i, l in enumerate(hist):
         if i >= len(impl_out):
@@ -286,6 +307,8 @@ def oracle(hist, impl_out):
         out = impl_out[i]
         o = out.split()
         op = canon_op(w)
+        if op != "new" and op != "apriori" and len(w) > 1 and w[1].isdigit() and int(w[1]) in sk:
+            cur[0] = sk[int(w[1])]["w"]
         if op == "new":
             if out.strip() == "throw":
                 if int(w[5]) <= int(w[4]):
@@ -293,7 +316,7 @@ def oracle(hist, impl_out):
                 continue
             if not o or o[0] != "S":
                 bad.append(("bad-observation", out[:80], i)); continue
-            s = dict(w=W(w[2]), truth={}, N=Fraction(0), lgmax=max(int(w[4]), 3), eps_ok=True)
+            s = dict(w=W(w[2]), truth={}, N=0, lgmax=max(int(w[4]), 3), eps_ok=True)
             sk[int(w[1])] = s
             s["last"] = parseS(s, o)[:3]
             if s["last"] != (0, 0, 0):
@@ -309,7 +332,15 @@ def oracle(hist, impl_out):
             wt = s["w"].parse(w[3])
             if out.strip() == "throw":
                 if wt is not None:
-                    bad.append(("unexpected-throw", l, i))
+                    if s["lgmax"] >= 11:
+                        # a probe distance >= DRIFT_LIMIT (1024) needs a table of >= 2048 slots: internal_adjust_or_insert threw
+                        # after update() had already added the weight to total_weight
+                        bad.append(("update-throws-at-drift-limit",
+                                    "update(item, valid weight) threw in a sketch with lg_max_map_size=%d (probe distance >= DRIFT_LIMIT); "
+                                    "total_weight keeps the rejected weight" % s["lgmax"], i))
+                        s["N"] += wt
+                    else:
+                        bad.append(("unexpected-throw", l, i))
                 continue
             if wt is None:
                 bad.append(("invalid-weight-accepted", l, i)); continue
@@ -320,10 +351,10 @@ def oracle(hist, impl_out):
                 s["N"] += wt
             total, offset, nact, empty, eps = parseS(s, o)
             if total != s["N"]:
-                bad.append(("total-weight-not-exact", "reported=%s true=%s" % (total, s["N"]), i))
+                bad.append(("total-weight-not-exact", "reported=%s true=%s" % (sh(total), sh(s["N"])), i))
                 s["N"] = total
             if offset < s["last"][1]:
-                bad.append(("max-error-decreased", "%s -> %s" % (s["last"][1], offset), i))
+                bad.append(("max-error-decreased", "%s -> %s" % (sh(s["last"][1]), sh(offset)), i))
             chk_eps(i, s, total, offset, eps)
             s["last"] = (total, offset, nact)
         elif op == "merge":
@@ -331,6 +362,11 @@ def oracle(hist, impl_out):
             if src not in sk:
                 continue
             s, t = sk[sid], sk[src]
+            if out.strip() == "throw" and s["lgmax"] >= 11:
+                bad.append(("update-throws-at-drift-limit", "merge threw half way in a sketch with lg_max_map_size=%d "
+                            "(probe distance >= DRIFT_LIMIT); the target keeps a partial merge" % s["lgmax"], i))
+                del sk[sid]          # its true content is no longer defined
+                continue
             if not o or o[0] != "S":
                 bad.append(("bad-observation", out[:80], i)); continue
             total, offset, nact, empty, eps = parseS(s, o)
@@ -346,10 +382,10 @@ def oracle(hist, impl_out):
                     # operand has no active item but a non-zero total weight / offset: the code returns early
                     bad.append(("merge-ignores-fully-purged-operand",
                                 "merge(other) with other.num_active=0, other.total=%s, other.max_error=%s left total=%s (true %s)"
-                                % (t["last"][0], t["last"][1], total, s["N"]), i))
+                                % (sh(t["last"][0]), sh(t["last"][1]), sh(total), sh(s["N"])), i))
                     s["truth"], s["N"] = before      # continue relative to what the sketch has really seen
                 else:
-                    bad.append(("total-weight-not-exact", "after merge reported=%s true=%s" % (total, s["N"]), i))
+                    bad.append(("total-weight-not-exact", "after merge reported=%s true=%s" % (sh(total), sh(s["N"])), i))
                     s["N"] = total
             chk_eps(i, s, total, offset, eps)
             s["last"] = (total, offset, nact)
@@ -357,6 +393,11 @@ def oracle(hist, impl_out):
             if sid not in sk:
                 continue
             t = sk[sid]
+            if out.strip() == "throw" and t["lgmax"] >= 11:
+                bad.append(("update-throws-at-drift-limit", "deserialize threw re-inserting the items of a sketch with "
+                            "lg_max_map_size=%d (probe distance >= DRIFT_LIMIT)" % t["lgmax"], i))
+                sk.pop(int(w[2]), None)
+                continue
             if not o or o[0] != "S":
                 bad.append(("bad-observation", out[:80], i)); continue
             s = dict(w=t["w"], truth=dict(t["truth"]), N=t["N"], lgmax=t["lgmax"], eps_ok=t["eps_ok"])
@@ -366,10 +407,10 @@ def oracle(hist, impl_out):
                 if t["last"][2] == 0 and t["last"][0] != 0 and (total, offset, nact) == (0, 0, 0):
                     bad.append(("roundtrip-drops-fully-purged-sketch",
                                 "serialize/deserialize of a sketch with num_active=0, total=%s, max_error=%s gives total=0 max_error=0"
-                                % (t["last"][0], t["last"][1]), i))
-                    s["truth"], s["N"] = {}, Fraction(0)
+                                % (sh(t["last"][0]), sh(t["last"][1])), i))
+                    s["truth"], s["N"] = {}, 0
                 else:
-                    bad.append(("roundtrip-changes-state", "before=%s after=%s" % (t["last"], (total, offset, nact)), i))
+                    bad.append(("roundtrip-changes-state", "before=%s after=%s" % ((sh(t["last"][0]), sh(t["last"][1]), t["last"][2]), (sh(total), sh(offset), nact)), i))
                     s["N"] = total
             s["last"] = (total, offset, nact)
         elif op == "q":
@@ -382,20 +423,20 @@ def oracle(hist, impl_out):
             if len(cells) != len(w) - 2:
                 bad.append(("bad-observation", out[:80], i)); continue
             if total != s["N"]:
-                bad.append(("total-weight-not-exact", "reported=%s true=%s" % (total, s["N"]), i))
+                bad.append(("total-weight-not-exact", "reported=%s true=%s" % (sh(total), sh(s["N"])), i))
             for it, c in zip(w[2:], cells):
                 est, lb, ub = [ww.val(x) for x in c.split(":")]
                 f = s["truth"].get(it, 0)
                 if lb > f:
-                    bad.append(("lb-above-true-weight", "item=%s lb=%s true=%s" % (it, lb, f), i))
+                    bad.append(("lb-above-true-weight", "item=%s lb=%s true=%s" % (it, sh(lb), sh(f)), i))
                 if ub < f:
-                    bad.append(("ub-below-true-weight", "item=%s ub=%s true=%s offset=%s" % (it, ub, f, offset), i))
+                    bad.append(("ub-below-true-weight", "item=%s ub=%s true=%s offset=%s" % (it, sh(ub), sh(f), sh(offset)), i))
                 if not (lb <= est <= ub):
-                    bad.append(("estimate-outside-bounds", "item=%s est=%s lb=%s ub=%s" % (it, est, lb, ub), i))
+                    bad.append(("estimate-outside-bounds", "item=%s est=%s lb=%s ub=%s" % (it, sh(est), sh(lb), sh(ub)), i))
                 if ub - lb != offset:
-                    bad.append(("ub-minus-lb-not-maximum-error", "item=%s ub=%s lb=%s max_error=%s" % (it, ub, lb, offset), i))
+                    bad.append(("ub-minus-lb-not-maximum-error", "item=%s ub=%s lb=%s max_error=%s" % (it, sh(ub), sh(lb), sh(offset)), i))
                 if lb == 0 and est != 0:
-                    bad.append(("untracked-estimate-nonzero", "item=%s est=%s" % (it, est), i))
+                    bad.append(("untracked-estimate-nonzero", "item=%s est=%s" % (it, sh(est)), i))
             s["last"] = (total, offset, nact)
         elif op == "fi":
             s = sk[sid]
@@ -415,7 +456,7 @@ def oracle(hist, impl_out):
             if len(seq) != n or sorted(seq) != sorted(r[1] for r in rows):
                 bad.append(("bad-observation", out[:80], i)); continue
             if any(seq[j] < seq[j + 1] for j in range(len(seq) - 1)):
-                bad.append(("frequent-items-not-in-descending-estimate-order", " ".join(map(str, seq))[:120], i))
+                bad.append(("frequent-items-not-in-descending-estimate-order", " ".join(map(sh, seq))[:120], i))
             got = set(r[0] for r in rows)
             if len(got) != len(rows):
                 bad.append(("frequent-items-duplicate-row", out[:80], i))
@@ -424,16 +465,16 @@ def oracle(hist, impl_out):
                 if miss:
                     key = "nfn-threshold-below-max-error" if thr < offset else "nfn-omits-item-above-threshold"
                     bad.append((key, "NO_FALSE_NEGATIVES threshold=%s max_error=%s omits item %s of true weight %s"
-                                % (thr, offset, miss[0][0], miss[0][1]), i))
+                                % (sh(thr), sh(offset), miss[0][0], sh(miss[0][1])), i))
             else:
                 extra = [(r[0], s["truth"].get(r[0], 0)) for r in rows if not s["truth"].get(r[0], 0) > thr]
                 if extra:
                     bad.append(("nfp-includes-item-not-above-threshold", "NO_FALSE_POSITIVES threshold=%s returns item %s of true weight %s"
-                                % (thr, extra[0][0], extra[0][1]), i))
+                                % (sh(thr), extra[0][0], sh(extra[0][1])), i))
             for it, est, lb, ub in rows:
                 f = s["truth"].get(it, 0)
                 if not (lb <= f <= ub) or not (lb <= est <= ub) or ub - lb != offset:
-                    bad.append(("frequent-items-row-bounds", "item=%s est=%s lb=%s ub=%s true=%s max_error=%s" % (it, est, lb, ub, f, offset), i))
+                    bad.append(("frequent-items-row-bounds", "item=%s est=%s lb=%s ub=%s true=%s max_error=%s" % (it, sh(est), sh(lb), sh(ub), sh(f), sh(offset)), i))
     return bad
 
 
@@ -471,10 +512,10 @@ class IntPart(FiPart):
     name = "main"
 
     def generate(self, rng, tier):
-        n = 110 if tier == "quick" else 900
+        n = 140 if tier == "quick" else 500
         hs = [gen_history(rng, tier, "int") for _ in range(n)]
         if tier != "quick":
-            hs += [gen_history(rng, tier, "int", big=True) for _ in range(3)]
+            hs += [gen_history(rng, tier, "int", big=True) for _ in range(2)]
         return with_hints(hs)
 
 
@@ -484,7 +525,7 @@ class StrPart(FiPart):
     name = "str"
 
     def generate(self, rng, tier):
-        n = 50 if tier == "quick" else 400
+        n = 60 if tier == "quick" else 250
         return with_hints([gen_history(rng, tier, "str") for _ in range(n)], stop_at_opaque_merge=True)
 
 
@@ -494,7 +535,7 @@ class StrOraclePart(FiPart):
     compare_model = False
 
     def generate(self, rng, tier):
-        n = 40 if tier == "quick" else 300
+        n = 40 if tier == "quick" else 150
         return [gen_history(rng, tier, "str") for _ in range(n)]
 
 
@@ -518,7 +559,8 @@ class C12(Spec):
                     "DSModel/Murmur3.lean fmix64 = the code's fmix64 (tied by the correspondence of probe positions)"]
     assumptions = ["theorems are about DSModel/Fi/Abstract.lean over natural-number weights (double weights: exact dyadic arithmetic, "
                    "floating-point rounding and uint64 wrap-around are not modelled)",
-                   "the DRIFT_LIMIT exception of reverse_purge_hash_map (probe distance >= 1024) is not modelled",
+                   "the DRIFT_LIMIT exception of reverse_purge_hash_map (probe distance >= 1024, tables >= 2048 slots) is outside the L1 model "
+                   "and the theorems (open known finding update-throws-at-drift-limit; the L2 model reproduces it for insertions, not inside hash_delete/resize)",
                    "fi_epsilon assumes every purge amount <= the median of ALL counters: true of the code when capacity+1 <= MAX_SAMPLE_SIZE (lg_max <= 10)"]
 
     def parts(self):
@@ -532,12 +574,16 @@ CLAIM = dict(
           "purge amount, about an executable Lean model of frequent_items_sketch: for every item (tracked or not) lower bound <= true "
           "weight <= upper bound, lb <= estimate <= ub, ub - lb = maximum error, total weight exact; NO_FALSE_POSITIVES returns only "
           "items above the threshold (all thresholds), NO_FALSE_NEGATIVES all such items when threshold >= maximum error, rows in "
-          "descending estimate order; maximum error <= EPSILON_FACTOR/2^lg_max * total when purge amounts are at most the true median. "
+          "descending estimate order; maximum error <= EPSILON_FACTOR/2^lg_max * total when purge amounts are at most the true median "
+          "(side condition EPSILON_FACTOR*LOAD_FACTOR >= 2 discharged on the generated constants); num_active <= capacity always "
+          "(the code's internal logic_errors are unreachable). "
           "The model is tied to the real headers differentially (L1 observations for every item of the universe; free choices resolved "
           "by an L2 model of reverse_purge_hash_map) and the property oracle (exact counts) runs on every implementation trace."),
     note=("Proved false of the current code (witnesses in Props/C12.lean, replayed every run, open known findings): NO_FALSE_NEGATIVES "
           "with threshold < maximum error omits purged items; merge() and serialize() treat a fully purged sketch (no active item, "
-          "non-zero total weight and maximum error) as empty and drop its total weight and error. L2 refinement lemmas are not proved "
-          "(table tied by correspondence only). Floating-point rounding, uint64 overflow and the DRIFT_LIMIT exception are not modelled."),
+          "non-zero total weight and maximum error) as empty and drop its total weight and error; update() throws at DRIFT_LIMIT "
+          "(>= 1023 colliding keys in a table of >= 2048 slots) after adding the weight to total_weight (outside the theorems). Of the L2 refinement only "
+          "fi_l2_purge_amount (sample = all counters, median order-independent) is proved; probe chains / hash_delete / scan order "
+          "of the table model are tied by correspondence only. Floating-point rounding and uint64 overflow are not modelled."),
     technique="Lean 4 invariant proofs over an inductive reachability relation with universally quantified free choices + differential correspondence (L1 via L2) + trace oracle",
     design="DESIGN.md §3 C12")
